@@ -276,6 +276,16 @@ func (s *Sim) parkAt(gid uint64, kind int, label string, op any) {
 	<-p.wake
 }
 
+// IsParked reports whether the named goroutine sits at a park point.
+func (s *Sim) IsParked(name string) bool {
+	for _, p := range s.parked {
+		if p.g == name {
+			return true
+		}
+	}
+	return false
+}
+
 // Pause is a harness park point of the calling task.
 func (s *Sim) Pause(label string) {
 	if s.dead {
